@@ -128,6 +128,13 @@ pub fn gen(seed: u64, n: usize) -> Vec<Value> {
             let strat = ["sequential", "interleaved", "weighted"][rng.random_range(0..3)];
             // three runs have more sources than 8 bits can number
             let k = if i % 500 == 11 { rng.random_range(257..=300) } else { rng.random_range(1..=6) };
+            // one run per strategy kind: tens of thousands of empty sources in a row in front of a non-empty one
+            if i == 3 || i == 4 {
+                let mut lens: Vec<usize> = vec![0; rng.random_range(40000..=50000)];
+                lens.push(2);
+                if i == 4 { lens.insert(0, 3); }
+                return json!({"lens": lens, "strategy": if i == 3 { "sequential" } else { "interleaved" }, "seed": rng.random::<u32>(), "errs": []});
+            }
             // very unequal sources (one holds less than a hundredth of the items): weights that round to nothing
             if i % 100 == 7 {
                 let mut lens: Vec<usize> = vec![rng.random_range(1..=2), rng.random_range(101..=320)];
